@@ -7,7 +7,7 @@ ID = "C09"
 PROPS = "C09"
 RULE = ("a body-bearing request (Content-Length on both sides of 1024, chunked in every size-line style, both headers) whose "
         "handler reads none / part / all of the body with buffer sizes around 1, 1024, 8192 and then responds, drops, panics or "
-        "takes the raw writer, followed by 1..2 tagged requests; the oracle demands that exactly the tagged followers are "
+        "takes the raw writer (also as HTTP/1.0 keep-alive, and as an HTTP/2.0/3.0 request that the library answers with 505 itself), followed by 1..2 tagged requests; the oracle demands that exactly the tagged followers are "
         "delivered, in order, each answered with its own body; non-trivial = the body is non-empty; distinct = distinct lines")
 ASSUMPTIONS = ["the client half-closes after sending; Unix sockets for bulk, a TCP sample"]
 
@@ -57,6 +57,10 @@ def build(rng, i, transport="u", framing=None, size=None, style=None, tiny=False
              body=body, chunks=random_chunks(rng, size) if fr != "cl" else None, chunk_style=style if style is not None else rng.below(4))
     r.te_first = rng.chance(1, 2)
     r.te_value = rng.choice(["chunked", "chunked", "Chunked", "CHUNKED", "chunKed"])
+    hv = rng.below(8)
+    if hv == 0:
+        # HTTP/1.0 with keep-alive (any letter case): the connection goes on, so the boundary matters just as much
+        r.version, r.conn = "1.0", rng.choice(["keep-alive", "Keep-Alive", "KEEP-ALIVE"])
     if tiny:
         r.chunks = [1] * size
     reads, ckind = consumption(rng, size)
@@ -66,6 +70,12 @@ def build(rng, i, transport="u", framing=None, size=None, style=None, tiny=False
     wu = [hx(r.target)]
     ws = [st]
     wrb = [rb]
+    if hv == 1:
+        # the body-bearing request is one the library refuses itself (HTTP/2.0 or 3.0 -> 505): its body is skipped all the same
+        r.version = rng.choice(["2.0", "3.0"])
+        stream = r.render()
+        acts, wu = [], []
+        ws, wrb = ["505"], ["~"]
     nf = 1 + rng.below(2)
     for k in range(nf):
         t = "f%d.%d" % (i, k)
@@ -82,7 +92,9 @@ def build(rng, i, transport="u", framing=None, size=None, style=None, tiny=False
         ws.append("200")
         wrb.append(hx(ab))
     extra = "wu=%s ws=%s wrb=%s we=closed fr=%s" % (j(wu), j(ws), j(wrb), fr)
-    return cv_line(stream, acts, transport=transport, extra=extra), {"framing": fr, "size": size, "consumption": ckind,
+    if not acts:
+        acts = [action_str([], respond_str(200, b"never", True))]
+    return cv_line(stream, acts, transport=transport, extra=extra), {"framing": fr, "size": size, "consumption": ckind, "variant": ["v10ka", "v505"][hv] if hv < 2 else "plain",
                                                                       "finish": fin[0], "followers": nf}
 
 
